@@ -148,28 +148,112 @@ fn run_faults<K: KeyT, V: ValT>(a: &Args) {
             rng: SmallRng::seed_from_u64(sd),
         };
         let mut g = mk(seed.wrapping_mul(7777).wrapping_add(si));
-        // prefix: generated by executing on a scratch world
-        let plen = g.rng.gen_range(5..90);
+        // prefix: generated by executing on a scratch world, steered into a target phase
+        // (most states: a resize pending with several elements still in the old table)
+        let want_split = si % 4 != 3;
+        let plen = g.rng.gen_range(5..60);
         let mut w0: World<K, V> = World::new(2, 64);
         w0.silent = true;
         let mut prefix = Vec::new();
-        for _ in 0..plen {
+        for i in 0..400 {
+            if i >= plen {
+                let ok = match w0.vstate(1) {
+                    Some(st) => !want_split || (st.split && st.old_len >= 3) || K::NAME == "zst",
+                    None => false,
+                };
+                if ok || i >= 399 {
+                    break;
+                }
+            }
             let op = g.next_op(&w0);
             w0.exec(&op);
             prefix.push(op);
         }
-        // the operation to fault: one that does something (skip lifecycle-only ops)
-        let mut x = g.next_op(&w0);
-        for _ in 0..20 {
-            let n = x["op"].as_str().unwrap_or("");
-            if n != "New" && n != "DropMap" && n != "FromIter" {
-                break;
+        let two = a.flag("two");
+        if two && !w0.alive(2) {
+            let op = json!({"op":"Clone","s":1,"d":2});
+            w0.exec(&op);
+            prefix.push(op);
+            for _ in 0..g.rng.gen_range(0..6) {
+                let op = g.next_op(&w0);
+                if op["op"] == "DropMap" || op["op"] == "IntoIter" { continue; }
+                w0.exec(&op);
+                prefix.push(op);
             }
-            if n != "DropMap" {
-                w0.exec(&x);
-                prefix.push(x.clone());
+        }
+        // the operation to fault: stratified over operation templates (each one comes round
+        // every few states), parameters chosen from the observed state
+        let mut x = Value::Null;
+        if w0.alive(1) {
+            let st = w0.vstate(1).unwrap();
+            let cap = st.main_cap;
+            let v = |g: &mut gen::Gen| g.rng.gen_range(0..10u32);
+            let zst = K::NAME == "zst";
+            let vv = if zst { 0 } else { v(&mut g) };
+            let addv = if zst { 0 } else { 3 };
+            let set = a.flag("set");
+            let t = (si / 1) % 18;
+            let oldk = json!({"cls":"old","i": g.rng.gen_range(0..40)});
+            let maink = json!({"cls":"main","i": g.rng.gen_range(0..40)});
+            let absent = json!({"cls":"absent","i": g.rng.gen_range(0..40)});
+            let anyk = if g.rng.gen_bool(0.6) { oldk.clone() } else { maink.clone() };
+            let items: Vec<Value> = (0..6).map(|i| json!([if zst {0} else { 2000 + i }, vv])).collect();
+            let tmpl = if !set {
+                match t {
+                    0 => json!({"op":"Insert","s":1,"k":absent,"v":vv}),
+                    1 => json!({"op":"Insert","s":1,"k":oldk,"v":vv}),
+                    2 => json!({"op":"Reserve","s":1,"n": 2 * cap + 3}),
+                    3 => json!({"op":"TryReserve","s":1,"n": cap + 1}),
+                    4 => json!({"op":"ShrinkToFit","s":1}),
+                    5 => json!({"op":"Entry","s":1,"k":anyk,"chain":[{"m":"and_modify","add":addv},{"m":"or_insert_with","v":vv},{"m":"read"}]}),
+                    6 => json!({"op":"Entry","s":1,"k":oldk,"chain":[{"m":"match"},{"m":"o_replace_entry_with"},{"m":"match"},{"m":"v_insert","v":vv}]}),
+                    7 => json!({"op":"Entry","s":1,"k":oldk,"chain":[{"m":"and_replace_entry_with","some":vv},{"m":"or_insert_with_key","v":vv}]}),
+                    8 => json!({"op":"RawEntry","s":1,"k":absent,"via":"key","chain":[{"m":"or_insert_with","v":vv},{"m":"read"}]}),
+                    9 => json!({"op":"Retain","s":1,"pred":{"mod":2,"rem":0},"add":addv}),
+                    10 => json!({"op":"DrainFilter","s":1,"pred":{"mod":2,"rem":1},"end":"drop","take":1}),
+                    11 => json!({"op":"Extend","s":1,"items":items,"hint":6}),
+                    12 => json!({"op":"Remove","s":1,"k":oldk}),
+                    13 => json!({"op":"RawEntry","s":1,"k":oldk,"via":"hash","chain":[{"m":"match"},{"m":"o_replace_entry_with","some":vv},{"m":"match"},{"m":"o_remove"}]}),
+                    14 if two => json!({"op":"Clone","s":1,"d":2}),
+                    15 if two => json!({"op":"CloneFrom","s":1,"d":2}),
+                    16 if two => json!({"op":"CloneFrom","s":2,"d":1}),
+                    17 if two => json!({"op":"Eq","s":1,"d":2}),
+                    _ => json!({"op":"Reserve","s":1,"n": cap + 1 + (si as usize % 7)}),
+                }
+            } else {
+                match t % 12 {
+                    0 => json!({"op":"SInsert","s":1,"k":absent}),
+                    1 => json!({"op":"SInsert","s":1,"k":oldk}),
+                    2 => json!({"op":"Reserve","s":1,"n": 2 * cap + 3}),
+                    3 => json!({"op":"SReplace","s":1,"k":oldk}),
+                    4 => json!({"op":"SGetOrInsertWith","s":1,"k":absent}),
+                    5 => json!({"op":"SGetOrInsertOwned","s":1,"k":absent}),
+                    6 => json!({"op":"Retain","s":1,"pred":{"mod":2,"rem":0}}),
+                    7 => json!({"op":"DrainFilter","s":1,"pred":{"mod":2,"rem":1},"end":"drop","take":1}),
+                    8 => json!({"op":"Extend","s":1,"items":items,"hint":6}),
+                    9 if two => json!({"op":"SAlg","s":1,"d":2,"kind":"symmetric_difference","hm":hm}),
+                    10 if two => json!({"op":"CloneFrom","s":1,"d":2}),
+                    11 if two => json!({"op":"SAlg","s":1,"d":2,"kind":"is_subset","hm":hm}),
+                    _ => json!({"op":"STake","s":1,"k":oldk}),
+                }
+            };
+            if let Some(o) = w0.resolve(&tmpl) {
+                x = o;
             }
+        }
+        if x.is_null() {
             x = g.next_op(&w0);
+            for _ in 0..20 {
+                let n = x["op"].as_str().unwrap_or("");
+                if n != "New" && n != "DropMap" && n != "FromIter" {
+                    break;
+                }
+                if n != "DropMap" {
+                    w0.exec(&x);
+                    prefix.push(x.clone());
+                }
+                x = g.next_op(&w0);
+            }
         }
         w0.silent = false;
         let ev0 = w0.exec(&x);
